@@ -1,7 +1,7 @@
 (* Proofs/Matchers.v (codec) - protocol matchers: monotone on prefixes; which matchers can accept the same bytes;
    SelectStreamFactoryProtocol is independent of the map iteration order when at most one matcher accepts. *)
 From Coq Require Import List NArith Lia ZifyBool ZifyNat ZifyN Bool Permutation.
-From MV Require Import Lib.Bytes Gen.ProtoConsts Gen.CodecSrc Model.Matchers.
+From MV Require Import Lib.Bytes Model.CodecParams Model.Matchers.
 Import ListNotations.
 Open Scope N_scope.
 
